@@ -47,7 +47,9 @@ META = {
 
 # ------------------------------------------------------------------ element types
 NUM_TYPES = ["int", "long", "short"]
+ELEM_TYPES = ["int", "long", "short", "string", "bool", "tiny"]     # Vector / Queue element types
 SPECIALS = {
+    "tiny": [127, -128, -1, 100],
     "int": [2147483647, -2147483647, 65536, -65536],
     # no long below INT_MIN: known finding C19-generic-long-arg-below-int-min
     "long": [5000000000, 9223372036854775807, 4294967296, -2147483648, 2147483648, 140737488355328],
@@ -58,7 +60,7 @@ SPECIALS = {
 def lit(t, x):
     """Cb literal for abstract value x of type t."""
     if t == "string":
-        return '"s%03d"' % x
+        return '"s%03d"' % x if x else '""'       # 0 <-> "" (the value of `T dummy;`), order-preserving
     if t == "bool":
         return "true" if x else "false"
     return str(x)
@@ -67,7 +69,7 @@ def lit(t, x):
 def show(t, x):
     """How the interpreter prints value x of type t."""
     if t == "string":
-        return "s%03d" % x
+        return "s%03d" % x if x else ""
     if t == "bool":
         return "1" if x else "0"
     return str(x)
@@ -105,7 +107,7 @@ def new_cont(rng, kind, kdom=None):
             if c["koff"] > 1000:
                 c["kstride"] = 1
         return c
-    return {"kind": kind, "e": rng.choice(NUM_TYPES)}
+    return {"kind": kind, "e": rng.choice(ELEM_TYPES)}
 
 
 def key_of(c, i):
@@ -397,7 +399,7 @@ def expected_lines(case, mres):
 def model_events(case, mres):
     """The model's malloc/free log of the whole program as [("M"|"F", (rep, container, block))]."""
     oplines, dts = mres
-    ev = []
+    ev = [("M", "cal"), ("F", "cal")]                 # void* cal = malloc(12345); free(cal);
     order = list(range(len(case["conts"])))[::-1]
     for rep in range(case.get("reps", 1)):
         for o, (_, _, _, lg) in zip(case["ops"], oplines):
@@ -441,30 +443,9 @@ def run_impl(impl_dir, src, with_shim=True, timeout=30):
 
 
 def canon_trace(trace):
-    """Impl trace -> (events, twins): drops the calibration blocks and the twin allocations of the known
-    finding C19-decl-init-malloc-twice (M a s immediately followed by M b s, a never freed)."""
-    ev = [(t[1], t[2], t[3] if len(t) > 3 else None) for t in trace]
-    ev = [x for x in ev if not (x[0] == "M" and x[2] == "12345")]
-    cal = set(t[2] for t in trace if t[1] == "M" and len(t) > 3 and t[3] == "12345")
-    out, twins, i = [], 0, 0
-    freed_later = {}
-    for idx, x in enumerate(ev):
-        if x[0] in ("F", "X"):
-            freed_later.setdefault(x[1], []).append(idx)
-    while i < len(ev):
-        x = ev[i]
-        if x[0] == "F" and x[1] in cal:
-            cal.discard(x[1])
-            i += 1
-            continue
-        if (x[0] == "M" and i + 1 < len(ev) and ev[i + 1][0] == "M" and ev[i + 1][2] == x[2]
-                and not any(j > i for j in freed_later.get(x[1], []))):
-            twins += 1
-            i += 1
-            continue
-        out.append((x[0], x[1]))
-        i += 1
-    return out, twins
+    """Impl trace -> event list [(kind, address)], calibration block included (it is event 0 and 1 of
+    the model's log too).  Nothing is dropped: the trace must equal the model's log exactly."""
+    return [(t[1], t[2]) for t in trace], 0
 
 
 def compare_logs(mev, iev):
@@ -784,7 +765,7 @@ def run(rep):
         "exhaustive_space": "every insertion order of %d distinct keys into Map<int,int> followed by %s removal order"
                             % ((4, "every") if tier == "quick" else (5, "every")),
         "input_distribution": hist, "operation_histogram": ophist,
-        "malloc_free_events_compared": events, "twin_allocations_dropped(known finding)": twins,
+        "malloc_free_events_compared": events,
         "samples": [{"case": cases[len(cases) // 3], "program_head": render(cases[len(cases) // 3])[:600]},
                     {"case": {"conts": cases[-1]["conts"], "ops": cases[-1]["ops"][:12]},
                      "model": [" ".join(x) for x in mres[-1][0][:12]]}],
@@ -815,7 +796,7 @@ def run(rep):
     if tier == "thorough":
         asan_dir = common.build_impl("asan")
         sel = [i for i, (o, c) in enumerate(stream)
-               if all(not (x["kind"] == "que" and x["e"] != "long") for x in c["conts"])]
+               if all(not (x["kind"] == "que" and x["e"] not in ("long", "string")) for x in c["conts"])]
         sel = sel[::max(1, len(sel) // 1200)]
 
         def one_asan(i):
@@ -856,7 +837,7 @@ def run(rep):
         "key and value types enter the model as integers; the harness encodes string keys order-preservingly (s000 < s001 < ...)",
         "array_get/array_set/sizeof/pointer arithmetic/generic instantiation of the interpreter are tied by differential runs, not modelled",
         "the malloc/free trace is taken at the call site(s) of the Cb built-in malloc calibrated by `void* cal = malloc(12345)`; "
-        "twin allocations of finding C19-decl-init-malloc-twice are dropped before comparison",
+        "allocations the interpreter makes for string payloads (array_set) come from another call site and are not in the trace",
     ]
 
 
